@@ -68,6 +68,17 @@ def feed(o, msg, r):
     if len(msg) > 1 and r.random() < 0.3:
         k = r.randrange(1, len(msg))
         o.update(msg[:k])
+        if r.random() < 0.5 and hasattr(o, "copy"):
+            # half of the two-piece histories finish on a copy taken in the middle while the original absorbs something else:
+            # the value is still the standard's for msg
+            try:
+                c = o.copy()
+            except Exception:  # copy() not available for this configuration: stay on the original
+                c = None
+            if c is not None:
+                o.update(bytes([0xEE]) * (k % 37 + 1))
+                c.update(msg[k:])
+                return c
         o.update(msg[k:])
     elif msg or r.random() < 0.5:
         o.update(msg)
